@@ -17,7 +17,7 @@ class C01(ProgramProperty):
             "that is queried on the probes, extended with add_record/add_prefix and queried again), each "
             "queried with parse_uri / compress / is_uri on 10 probe URIs (registered prefix exactly, minus / plus one "
             "symbol, plus the tail of another registered prefix, random). Non-trivial = at least two registered "
-            "URI prefixes are prefixes of some probe; distinct = distinct step lists.")
+            "URI prefixes are prefixes of some probe; distinct = distinct step lists. Every probe is also put to the real trie object (converter.trie.longest_prefix_item) and compared with the structural trie model; in 30 % of the incremental builds a rejected add_prefix is part of the history and the would-be names are probed.")
     assumptions = ["PyTrie's StringTrie.longest_prefix_item returns the longest key that is a prefix (modelled by "
                    "contract `Conv.lpi`; exercised on every case)"]
 
